@@ -158,7 +158,8 @@ def buf_predicate(fams):
 
 
 def snapshot(v):
-    if isinstance(v, (STT, SList)):
+    from vt.e1.values import SObj
+    if isinstance(v, (STT, SList, SObj)):
         return v.snapshot()
     return v
 
